@@ -103,6 +103,17 @@ fn check(rec: &Value) -> Vec<String> {
                     if all.len() != idx + 2 || all[idx] != i {
                         bad.push(format!("to_insn_vec: entry {idx} is {:?}, the fields are {:?}", all.get(idx), i));
                     }
+                    // every entry is the decoding of its own slot, whatever its neighbours are
+                    // (the slot after a wide load's first half is an ordinary slot for the decoder)
+                    for (j, e) in all.iter().enumerate() {
+                        let s = &prog[8 * j..8 * j + 8];
+                        let own = ebpf::Insn { opc: s[0], dst: s[1] & 0xf, src: s[1] >> 4, off: i16::from_le_bytes([s[2], s[3]]),
+                                               imm: i32::from_le_bytes([s[4], s[5], s[6], s[7]]) };
+                        if *e != own {
+                            bad.push(format!("to_insn_vec: entry {j} is {:?}, its slot {:?} decodes to {:?} (instruction under test at {idx})", e, s, own));
+                            break;
+                        }
+                    }
                 }
             }
         }
